@@ -209,8 +209,9 @@ def run(ck):
     dcalls = calls_with_env(mb, lambda c: call_name(c) == '_bonds_from_distance')
     final = [d for d in dcalls if kwarg(d[0], 'non_edges') is not None]
     ok = len(final) == 1 and u(kwarg(final[0][0], 'non_edges')) == 'non_edges' and u(kwarg(final[0][0], 'fudge')) == 'fudge' and \
+        [u(a) for a in final[0][0].args] == ['system'] and kwarg(final[0][0], 'nodes') is None and \
         flow.equivalent(final[0][2], ('atom', ('truth', 'allow_dist')))[0]
-    ck.ob('PROV-modes', mod.loc(mb), ok, 'the system-wide distance pass runs exactly when distance mode is on, with the collected block non-edges and the fudge factor',
+    ck.ob('PROV-modes', mod.loc(mb), ok, 'the system-wide distance pass runs exactly when distance mode is on, over *all* atoms (no node restriction), with the collected block non-edges and the fudge factor',
           key='PROV-modes|distance')
     # every distance pass uses the requested fudge factor (the fallback pass per residue too), down to MakeBonds.fudge
     ok = bool(dcalls) and all(kwarg(d[0], 'fudge') is not None and u(kwarg(d[0], 'fudge')) == 'fudge' or
@@ -298,6 +299,18 @@ def run(ck):
           key='MPT-name-bonds|non-edges')
     dup = [s for s, c, e in stmts_with_env(bn, lambda s: isinstance(s, ast.Raise)) if 'multiple atoms' in u(s)]
     ck.ob('MPT-name-bonds', mod.loc(bn), len(dup) == 1, 'duplicate atom names in a residue are an error (falls back to distance)', key='MPT-name-bonds|duplicates')
+    # only atoms that *have* a name take part in the name table; "duplicate" means two atoms carrying the same name
+    nloop = [l for l in bn.body if isinstance(l, ast.For) and u(l.iter) == 'nodes']
+    fills = stmts_with_env(bn, lambda s_: (isinstance(s_, ast.Expr) and call_attr(s_.value) == 'add' and u(s_.value.func.value).startswith('mol_name_to_idx[')) or
+                           (isinstance(s_, ast.Assign) and u(s_.targets[0]).startswith('mol_name_to_idx[')), stmts=nloop[0].body) if len(nloop) == 1 else []
+    ok = len(fills) == 1
+    if ok:
+        ats = list(flow.atoms_of(fills[0][1]))
+        ok = len(ats) == 1 and ats[0][0] == 'In' and ats[0][1] == "'atomname'" and flow.equivalent(fills[0][1], ('atom', ats[0]))[0]
+        rz = [(st_, c_) for st_, c_, e_ in stmts_with_env(bn, lambda s_: isinstance(s_, ast.Raise)) if 'multiple atoms' in u(st_)]
+        ok = ok and len(rz) == 1 and any(a[0] == 'Gt' and 'len(' in a[1] and a[2] == '1' for a in flow.atoms_of(rz[0][1])) and not any(isinstance(n, ast.Raise) for n in ast.walk(nloop[0]))
+    ck.ob('MPT-name-bonds', mod.loc(bn), ok, 'the name table is filled from exactly the atoms that carry an `atomname` (an atom without a name is not a name clash), and a clash is '
+          'more than one atom under one name', key='MPT-name-bonds|named-atoms-only')
     # the processor always re-partitions, whatever the modes
     cls = mod.cls('MakeBonds')
     rs = ck.need(method(cls, 'run_system'), 'MakeBonds.run_system vanished')
